@@ -114,6 +114,7 @@ func AddNode(n)
 module ring
 props C08
 use common core
+use netmap be4
 dialect neovm
 
 // C08: ring of the last N legacy snapshots and the per-epoch structured lists.
@@ -123,9 +124,12 @@ pure isslot(x Bytes) Bool = prefix("snapshot_", x) && len(x) == 10
 pure N(s Store) Int  = b2i(s.get("snapshotCount"))
 pure id(s Store) Int = b2i(s.get("snapshotCurrent"))
 pure C(s Store) Int  = b2i(s.get("snapshotEpoch"))
-ufun be4(e Int) Bytes
-pure pkey(e Int) Bytes = "p" ++ be4(e)
-axiom be4len: forall e Int {be4(e)} :: len(be4(e)) == 4
+pure pkey(e Int) Bytes = "p" ++ fbe(e)
+// ring position d ticks back from position i in a ring of n slots (= (i - d + n) % n for 0 <= d < n, 0 <= i < n)
+pure rpos(i Int, d Int, n Int) Int = i >= d ? i - d : i - d + n
+pure slot(s Store, d Int) Bytes = slotkey(rpos(id(s), d, N(s)))
+// no per-epoch node list outside the window of the last N epochs
+pred NoStale(s Store) = forall e Int, x Bytes {s.opt(pkey(e) ++ x)} :: 1 <= e && e < 4294967296 && (e <= C(s) - N(s) || e > C(s)) ==> !s.has(pkey(e) ++ x)
 
 func getSnapshotCount(ctx) (r)
   pure
@@ -141,25 +145,71 @@ func moveSnapshot(ctx, from, to)
   ensures forall x Bytes {store.opt(x)} :: x != slotkey(to) ==> store.opt(x) == old(store).opt(x)
 
 func dropNetmap(ctx, epoch)
-  trusted
+  requires 0 - 32768 <= epoch && epoch < 4294967296
   ensures forall x Bytes {store.opt(x)} :: prefix(pkey(epoch), x) ==> !store.has(x)
   ensures forall x Bytes {store.opt(x)} :: !prefix(pkey(epoch), x) ==> store.opt(x) == old(store).opt(x)
+  ensures notifs == old(notifs)
+  loop 0
+    invariant forall j Int {$it.key(j)} :: 0 <= j && j < $it.pos ==> !store.has($it.key(j))
+    invariant forall x Bytes {store.opt(x)} :: !prefix(pkey(epoch), x) ==> store.opt(x) == old(store).opt(x)
+    invariant forall x Bytes {store.opt(x)} :: store.has(x) ==> store.opt(x) == old(store).opt(x)
+    invariant notifs == old(notifs)
+
+// Read side: snapshot(d) reads ring position d (d ticks ago), snapshotByEpoch(e) position C-e, both fault outside
+// 0 <= d < N (older than the ring or in the future: an error); an empty or missing slot reads as the empty map.
+// listNodes(e) walks the keys under p<be4(e)>: with NoStale there are none for epochs outside the window.
+func getSnapshot(ctx, key) (r)
+  pure
+  ensures store.has(key) ==> r == deser_L_Node(store.get(key))
+  ensures !store.has(key) ==> len(r) == 0 && !isnil(r)
+
+func Snapshot(diff) (r)
+  pure
+  requires 1 <= N(store) && N(store) <= 255 && 0 <= id(store) && id(store) < N(store)
+  ensures [C08] 0 <= diff && diff < N(store)
+  ensures [C08] store.has(slot(store, diff)) ==> r == deser_L_Node(store.get(slot(store, diff)))
+  ensures [C08] !store.has(slot(store, diff)) ==> len(r) == 0
+
+func SnapshotByEpoch(epoch) (r)
+  pure
+  requires 1 <= N(store) && N(store) <= 255 && 0 <= id(store) && id(store) < N(store)
+  ensures [C08] C(store) - N(store) < epoch && epoch <= C(store)
+  ensures [C08] store.has(slot(store, C(store) - epoch)) ==> r == deser_L_Node(store.get(slot(store, C(store) - epoch)))
+  ensures [C08] !store.has(slot(store, C(store) - epoch)) ==> len(r) == 0
+
+func Netmap() (r)
+  pure
+  requires 1 <= N(store) && N(store) <= 255 && 0 <= id(store) && id(store) < N(store)
+  ensures [C08] store.has(slot(store, 0)) ==> r == deser_L_Node(store.get(slot(store, 0)))
+  ensures [C08] !store.has(slot(store, 0)) ==> len(r) == 0
+
+func ListNodesEpoch(epoch) (r)
+  requires 0 - 32768 <= epoch && epoch < 4294967296
+  ensures [C08] r.prefix == pkey(epoch) && r.opts == 12 && r.pos == 0 && r.store == old(store)
+  ensures [C08] store == old(store) && notifs == old(notifs)
+  ensures [C08] NoStale(store) && 1 <= epoch && (epoch <= C(store) - N(store) || epoch > C(store)) ==> forall x Bytes {store.opt(pkey(epoch) ++ x)} :: !store.has(pkey(epoch) ++ x)
+
+func ListNodes() (r)
+  requires 0 <= C(store) && C(store) < 4294967296
+  ensures [C08] r.prefix == pkey(C(store)) && r.opts == 12 && r.pos == 0 && r.store == old(store)
+  ensures [C08] store == old(store) && notifs == old(notifs)
 
 func UpdateSnapshotCount(count)
   requires store.has("snapshotCount") && store.has("snapshotCurrent") && store.has("snapshotEpoch")
   requires 1 <= N(store) && N(store) <= 255 && 0 <= id(store) && id(store) < N(store) && count <= 255
-  requires 0 <= C(store)
-  requires forall e Int, x Bytes {store.opt(pkey(e) ++ x)} :: e <= C(store) - N(store) ==> !store.has(pkey(e) ++ x)
+  requires 0 <= C(store) && C(store) < 4294967296
+  requires NoStale(store)
   ensures W(alphabet())
   ensures N(store) == count && count != old(N(store)) && C(store) == old(C(store))
   // any accepted count leaves the contract able to tick again
   ensures [C08] N(store) >= 1
   ensures [C08] 0 <= id(store) && id(store) < count
   // the most recent min(old, new) maps are preserved unchanged
-  ensures [C08] forall d Int :: 0 <= d && d < count && d < old(N(store)) ==>
-        store.opt(slotkey((id(store) - d + count) % count)) == old(store).opt(slotkey((old(id(store)) - d + old(N(store))) % old(N(store))))
+  ensures [C08] forall d Int :: 0 <= d && d < count && d < old(N(store)) ==> store.opt(slot(store, d)) == old(store).opt(slot(old(store), d))
   // nothing older than the new window leaks
-  ensures [C08] forall e Int, x Bytes {store.opt(pkey(e) ++ x)} :: e <= C(store) - count ==> !store.has(pkey(e) ++ x)
+  ensures [C08] NoStale(store)
+  // the node lists of the epochs inside the new window are untouched
+  ensures [C08] forall e Int, x Bytes {store.opt(pkey(e) ++ x)} :: C(store) - count < e && e <= C(store) && 0 <= e ==> store.opt(pkey(e) ++ x) == old(store).opt(pkey(e) ++ x)
   loop 0
     invariant lower - 1 <= k && k <= count - 1
     invariant forall j Int {store.opt(slotkey(j))} :: k < j && j <= count - 1 ==> store.opt(slotkey(j)) == entry(store).opt(slotkey(j - diff))
@@ -177,11 +227,12 @@ func UpdateSnapshotCount(count)
     invariant forall e Int, x Bytes {store.opt(pkey(e) ++ x)} :: curEpoch - oldCount + 1 <= e && e < k ==> !store.has(pkey(e) ++ x)
     invariant forall x Bytes {store.opt(x)} :: store.has(x) ==> store.opt(x) == entry(store).opt(x)
     invariant forall x Bytes {store.opt(x)} :: !prefix("p", x) ==> store.opt(x) == entry(store).opt(x)
+    invariant forall e Int, x Bytes {store.opt(pkey(e) ++ x)} :: curEpoch - count < e && e <= curEpoch && 0 <= e ==> store.opt(pkey(e) ++ x) == entry(store).opt(pkey(e) ++ x)
 @*/
 
 /*@
 module tick
-props C06 C09
+props C06 C08 C09
 use common core
 use netmap be4
 dialect neovm
@@ -203,6 +254,10 @@ axiom filtLenS: forall s Store, n Int {filtLen(s, n + 1)} :: n >= 0 ==> filtLen(
 axiom filtAtS:  forall s Store, n Int, i Int {filtAt(s, n + 1, i)} :: n >= 0 && 0 <= i && i < filtLen(s, n + 1)
                   ==> filtAt(s, n + 1, i) == (i < filtLen(s, n) ? filtAt(s, n, i) : cand(s, n))
 
+pure rpos(i Int, d Int, n Int) Int = i >= d ? i - d : i - d + n
+pure slot(s Store, d Int) Bytes = slotkey(rpos(id(s), d, N(s)))
+// no per-epoch node list outside the window of the last N epochs (same predicate as in module ring)
+pred NoStale(s Store) = forall e Int, x Bytes {s.opt(pkey(e) ++ x)} :: 1 <= e && e < 4294967296 && (e <= C(s) - N(s) || e > C(s)) ==> !s.has(pkey(e) ++ x)
 // counters are initialised by deployment and kept well-formed (ring invariant, see module ring)
 pred WF(s Store) = s.has("snapshotCount") && s.has("snapshotCurrent") && s.has("snapshotEpoch")
                 && 1 <= N(s) && N(s) <= 255 && 0 <= id(s) && id(s) < N(s) && 0 <= C(s)
@@ -290,9 +345,23 @@ func NewEpoch(epochNum)
   ensures [C06,C09] forall j Int {xcalls("newEpoch")[old(xcalls("newEpoch")).len + j]} :: 0 <= j && j < cnt(old(store), "e") ==>
          xcalls("newEpoch")[old(xcalls("newEpoch")).len + j] == ev_call_newEpoch(skey(old(store), "e", j)[2:], "newEpoch", epochNum)
   ensures [C06] notifs == old(notifs) ++ [NewEpoch(epochNum)]
+  // C08, the ring step: what was d ticks ago is d+1 ticks ago now (for the N-1 most recent maps), the new map is at d = 0
+  // (the lemma ringStep below derives it from the ring-index, count and frame clauses of this contract)
+  ensures [C08] slot(store, 0) == slotkey(id(store))
+  // C08, consecutive ticks keep the per-epoch lists inside the window of the last N epochs: the list of epoch e-N is dropped,
+  // lists of other epochs are untouched
+  ensures [C08] epochNum == old(C(store)) + 1 && NoStale(old(store)) ==> NoStale(store)
+  ensures [C08] forall e Int, x Bytes {store.opt(pkey(e) ++ x)} :: 0 <= e && e < 4294967296 && e != epochNum && e != epochNum - old(N(store)) ==> store.opt(pkey(e) ++ x) == old(store).opt(pkey(e) ++ x)
   // nothing else is written: counters, the ring slot, the epoch's list and the dropped list
   ensures [C06] forall x Bytes {store.opt(x)} :: x != "snapshotEpoch" && x != "snapshotBlock" && x != "snapshotCurrent" && x != slotkey(id(store))
         && !prefix(pkey(epochNum), x) && !(epochNum > old(N(store)) && prefix(pkey(epochNum - old(N(store))), x)) ==> store.opt(x) == old(store).opt(x)
+
+// C08, over the contract of NewEpoch (s = store before, t = store after a tick to epoch e): what snapshot(d - 1) returned before
+// the tick is what snapshot(d) returns after it, for the N - 1 most recent maps
+lemma ringStep [C08]: forall s Store, t Store, e Int, d Int :: WF(s) && N(t) == N(s) && id(t) == (id(s) + 1) % N(s) && 1 <= d && d < N(s)
+      && (forall x Bytes {t.opt(x)} :: x != "snapshotEpoch" && x != "snapshotBlock" && x != "snapshotCurrent" && x != slotkey(id(t))
+            && !prefix(pkey(e), x) && !(e > N(s) && prefix(pkey(e - N(s)), x)) ==> t.opt(x) == s.opt(x))
+      ==> t.opt(slot(t, d)) == s.opt(slot(s, d - 1))
 
 func Epoch() (r)
   pure
